@@ -12,6 +12,7 @@ import (
 	"github.com/itchio/wharf/zzverif/vsched"
 
 	"verif/lib/runner"
+	"verif/lib/wh"
 )
 
 func init() { schedSubs = schedBody }
@@ -23,8 +24,38 @@ type execResult struct {
 }
 
 func schedBody(w *runner.W) {
+	schedSub(w, "interleavings", "sched", scenarios(w.Quick()))
+	schedSub(w, "healer-interleavings", "schedfs", healerScenarios(w.Quick()))
+}
+
+// healerScenarios: the archive healer as consumer, with and without a canceller. Runs in
+// the variant whose file-system calls are visible operations (the healer writes while the
+// validator reads); files are smaller than one copy chunk.
+func healerScenarios(quick bool) []Scenario {
+	var out []Scenario
+	b := func(q, t int) int {
+		if quick {
+			return q
+		}
+		return t
+	}
+	for _, cancel := range []bool{true, false} {
+		out = append(out,
+			Scenario{Files: []string{"=x"}, Damage: "first", Consumer: "healer", Cap: 1, Cancel: cancel, Bound: b(2, 3)},
+			Scenario{Files: []string{"=x", "=yy"}, Symlink: true, Damage: "all", Consumer: "healer", Cap: 1, Cancel: cancel, Bound: b(0, 1)},
+		)
+		lastBound := b(1, 1)
+		if cancel {
+			lastBound = b(0, 1)
+		}
+		out = append(out, Scenario{Files: []string{"=x", "=yy"}, Symlink: true, Damage: "last", Consumer: "healer", Cap: 1, Cancel: cancel, Bound: lastBound})
+	}
+	return out
+}
+
+func schedSub(w *runner.W, subName, variant string, list []Scenario) {
 	var sub *runner.Sub[Scenario]
-	sub = runner.NewSub(w, "interleavings", func(sc Scenario, r *runner.Rec) {
+	sub = runner.NewSub(w, subName, func(sc Scenario, r *runner.Rec) {
 		p, err := prepare(sc, w.Scratch(), w.Seed)
 		if err != nil {
 			panic(err)
@@ -35,6 +66,13 @@ func schedBody(w *runner.W) {
 		var res execResult
 		bodyFn := func() {
 			res = execResult{}
+			if p.template != "" {
+				// fresh damaged copy (no other goroutine exists yet)
+				os.RemoveAll(p.dir)
+				if err := wh.CopyTree(p.template, p.dir); err != nil {
+					panic(err)
+				}
+			}
 			ctx, cancel := context.WithCancel(context.Background())
 			if sc.Cancel {
 				vsched.Go0(func() {
@@ -122,16 +160,16 @@ func schedBody(w *runner.W) {
 		if st.MaxGoroutines < 2 {
 			r.Failf("harness:vacuous", "scenario never had two goroutines alive")
 		}
-	}, runner.Variant("sched"))
+	}, runner.Variant(variant))
 	if sub.Active() {
 		// heavy scenarios are explored by all workers together (level-2 subtree
 		// sharding); light ones are dealt round-robin
-		for _, sc := range scenarios(w.Quick()) {
+		for _, sc := range list {
 			if heavy(sc) {
 				sub.DoOwned(sc)
 			}
 		}
-		for _, sc := range scenarios(w.Quick()) {
+		for _, sc := range list {
 			if !heavy(sc) {
 				sub.Do(sc)
 			}
